@@ -42,7 +42,7 @@ def expand_for(lines):
 def parse_spec(path):
     cfg = {'record_names': {}, 'extern_c': [], 'trivial_externals': [], 'roots': [], 'prelude': [],
            'midlude': [], 'postlude': [], 'includes': [], 'defines': [], 'stub_functions': [],
-           'params_as_locals': [], 'typedefs': {}, 'pure_hoist': [], 'cbmc_flags': [], 'skip_records': [], 'ext_overload_by_type': []}
+           'params_as_locals': [], 'typedefs': {}, 'pure_hoist': [], 'cbmc_flags': [], 'skip_records': [], 'external_records': [], 'ext_overload_by_type': []}
     contracts = {}
     harnesses = []
     cur = None          # current function contract dict
@@ -117,12 +117,15 @@ def parse_spec(path):
                 a, _, b = rest.partition(' = ')
                 cfg['typedefs'][a.strip()] = b.strip()
             elif key in ('@roots', '@extern_c', '@prelude', '@midlude', '@postlude', '@includes', '@defines',
-                         '@stub_functions', '@params_as_locals', '@pure_hoist', '@cbmc_flags', '@skip_records', '@ext_overload_by_type'):
+                         '@stub_functions', '@external_records', '@params_as_locals', '@pure_hoist', '@cbmc_flags', '@skip_records', '@ext_overload_by_type'):
                 cfg[key[1:]] += rest.split()
             elif key == '@trivial_external':
                 cfg['trivial_externals'].append(rest)
             elif key in ('@driver', '@filter', '@component'):
                 cfg[key[1:]] = rest
+            elif key == '@ext_overload_by_arity':
+                for x in rest.split():
+                    cfg.setdefault('ext_overload_by_arity', {})[x] = True
             elif key == '@atomic_required':
                 cfg.setdefault('atomic_required', []).extend(rest.split())
             elif key == '@guarded':
